@@ -506,3 +506,103 @@ pub fn write_once_dag(t: &mut Tape, sig: &[OpSpec], nin: usize, nops: usize, nou
     let ep = t.permutation(d.edges.len());
     d.renumber(&np, &ep)
 }
+
+// ------------------------------------------------------------------------------------------
+// union-find stress shapes
+
+/// Pairs over `2^k` elements merged level by level (blocks of size 1, 2, 4, ...), so that a
+/// union-by-rank forest becomes as deep as it can (rank k).  Each union joins two blocks of equal
+/// size through a representative of each: either a tracked "first-side root" (keeps the forest
+/// uncompressed) or a random member.  The elements are renamed by a random permutation.
+pub fn tournament_pairs(t: &mut Tape, k: usize) -> (usize, Vec<(usize, usize)>) {
+    let n = 1usize << k;
+    let perm = t.permutation(n);
+    let via_roots = t.chance(2, 3);
+    // root[b] = the element that stays root if ties attach the second argument under the first
+    let mut root: Vec<usize> = (0..n).collect();
+    let mut pairs = vec![];
+    let mut size = 1;
+    while size < n {
+        let mut level = vec![];
+        for b in (0..n).step_by(2 * size) {
+            let (lo, hi) = (b, b + size);
+            let flip = t.chance(1, 2);
+            let (x, y) = if flip { (hi, lo) } else { (lo, hi) };
+            let (mx, my) = if via_roots {
+                (root[x], root[y])
+            } else {
+                (x + t.choice(size), y + t.choice(size))
+            };
+            level.push((mx, my));
+            let r = root[x];
+            root[lo] = r;
+            root[hi] = r;
+        }
+        if t.chance(1, 2) {
+            let p = t.permutation(level.len());
+            let l2: Vec<(usize, usize)> = p.iter().map(|&i| level[i]).collect();
+            level = l2;
+        }
+        pairs.extend(level);
+        size *= 2;
+    }
+    (n, pairs.into_iter().map(|(a, b)| (perm[a], perm[b])).collect())
+}
+
+/// a long chain / caterpillar of pairs (adversarial orders for union-find without rank)
+pub fn chain_pairs(n: usize, shape: usize) -> Vec<(usize, usize)> {
+    match shape {
+        // fresh node on the left: (i+1, i)
+        0 => (0..n.saturating_sub(1)).map(|i| (i + 1, i)).collect(),
+        // fresh node on the right: (i, i+1)
+        1 => (0..n.saturating_sub(1)).map(|i| (i, i + 1)).collect(),
+        // caterpillar: (2k, 2k+1), (2k+1, 2k-2)
+        _ => {
+            let mut v = vec![];
+            let mut k = 0;
+            while 2 * k + 1 < n {
+                v.push((2 * k, 2 * k + 1));
+                if k > 0 {
+                    v.push((2 * k + 1, 2 * k - 2));
+                }
+                k += 1;
+            }
+            v
+        }
+    }
+}
+
+/// Bipartite version for composition: 2^k "left" nodes and 2^k "right" nodes, boundary pairs
+/// (left node, right node) in a balanced merge order, so that the gluing f.t[i] ~ g.s[i] builds a
+/// deep union-find forest.  Returns (number of left nodes, number of right nodes, f.t, g.s).
+pub fn tournament_boundary(t: &mut Tape, k: usize) -> (usize, usize, Vec<usize>, Vec<usize>) {
+    let n = 1usize << k;
+    let pl = t.permutation(n);
+    let pr = t.permutation(n);
+    // block b (initially {L_b, R_b}); rep_l[b] = a left member used as "root side" representative
+    let mut ft = vec![];
+    let mut gs = vec![];
+    for b in 0..n {
+        ft.push(b);
+        gs.push(b);
+    }
+    let mut rep: Vec<usize> = (0..n).collect(); // left representative of the block starting at b
+    let mut size = 1;
+    while size < n {
+        for b in (0..n).step_by(2 * size) {
+            let (lo, hi) = (b, b + size);
+            let flip = t.chance(1, 2);
+            let (x, y) = if flip { (hi, lo) } else { (lo, hi) };
+            // left representative of x's block, a right member of y's block
+            let u = if t.chance(2, 3) { rep[x] } else { x + t.choice(size) };
+            let v = if t.chance(2, 3) { rep[y] } else { y + t.choice(size) };
+            ft.push(u);
+            gs.push(v);
+            let r = rep[x];
+            rep[lo] = r;
+            rep[hi] = r;
+        }
+        size *= 2;
+    }
+    (n, n, ft.into_iter().map(|a| pl[a]).collect(), gs.into_iter().map(|a| pr[a]).collect())
+}
